@@ -24,6 +24,12 @@ def transformKind (c : Json) : Json :=
   let rm := rmOfJson st
   resultOf (Transformer.transform (optsOf (c.getD "opts")) rm (c.getD "info") (opRefs st "pub") (opRefs st "unpub"))
 
+/-- kind `gtransform` (C18): the generic document transformer -/
+def gtransformKind (c : Json) : Json :=
+  let st := c.getD "state"
+  let rm := rmOfJson st
+  resultOf (Transformer.genericTransform (optsOf (c.getD "opts")) rm (c.getD "info") (opRefs st "pub") (opRefs st "unpub"))
+
 /-- kind `resolve` (C17) -/
 def resolveKind (c : Json) : Json :=
   resultOf (Did.resolve hashFam (oraclesOf c) (getStr c "ns") (getStr c "did"))
